@@ -88,3 +88,33 @@ Definition ex_M_bad : module := mk_module (m_attrs ex_M) (m_enums ex_M)
 (* harness: verdict of the mirror and the side condition of the theorem *)
 Definition run_layout2 (T : tables) (M : module) : bool * bool := (check_layout T M, units_okb M).
 Definition pair_bool_eqb (a b : bool * bool) : bool := Bool.eqb (fst a) (fst b) && Bool.eqb (snd a) (snd b).
+
+(* effective byte order of every field, to be compared with the byte_order attributes the front
+   end's normalisation leaves on the fields *)
+Definition border_eqb (a b : border) : bool :=
+  match a, b with BLittle, BLittle | BBig, BBig | BNull, BNull => true | _, _ => false end.
+Definition optborder_eqb (a b : option border) : bool :=
+  match a, b with None, None => true | Some x, Some y => border_eqb x y | _, _ => false end.
+Fixpoint list_eqb {A} (f : A -> A -> bool) (a b : list A) : bool :=
+  match a, b with
+  | [], [] => true
+  | x :: a', y :: b' => f x y && list_eqb f a' b'
+  | _, _ => false
+  end.
+Definition borders (M : module) : list (list (option border)) :=
+  map (fun s => map (effective_border M s) (s_fields s)) (m_structs M).
+
+Inductive lout :=
+| LModel (v u : bool) (b : list (list (option border)))
+| LExpect (v u : bool) (b : option (list (list (option border)))).
+
+Definition run_layout3 (T : tables) (M : module) : lout :=
+  LModel (check_layout T M) (units_okb M) (if check_all_attrs T M then borders M else []).
+
+Definition lout_agrees (a b : lout) : bool :=
+  match a, b with
+  | LModel v u bs, LExpect v' u' ob =>
+      Bool.eqb v v' && Bool.eqb u u'
+      && match ob with None => true | Some bs' => list_eqb (list_eqb optborder_eqb) bs bs' end
+  | _, _ => false
+  end.
